@@ -59,7 +59,9 @@ Node *Parser::parseComposite(const Token &token, const Token &identifier) {
     PSC::Block *block = new PSC::Block();
     blocks.emplace_back(block);
 
-    while (currentToken->type == TokenType::DECLARE) {
+    while (true) {
+        while (currentToken->type == TokenType::LINE_END) advance();
+        if (currentToken->type != TokenType::DECLARE) break;
         Node *declareNode = parseDeclareExpression();
         block->addNode(declareNode);
 
